@@ -2,11 +2,13 @@
 //! case: {"cfg":{..}, "rules":[.. each optionally with "act":{..}], "reqs":[..]}  (format: src/router_gen.rs)
 //! The request is handed to the router un-normalised (`trace_request` / `get_trace` rebuild it
 //! themselves, matching is run on `rebuild_request(q)`), as the explain entry points do.
-//! obs per request: {"t": sorted ids listed by the trace (a rule living in several accepting ip
-//!   buckets is listed once per bucket), "m": sorted ids of match_request(rebuild_request(q)),
+//! obs per request: {"t": sorted ids listed by Trace::get_routes_from_traces(trace_request(q)) (with
+//!   repetitions, if any), "ts": sorted ids of all routes stored in Storage nodes of the serialised
+//!   traces (a rule living in several accepting ip buckets is stored once per bucket),
+//!   "m": sorted ids of match_request(rebuild_request(q)),
 //!   "fp": priority of get_trace().final_route, "gp": priority of get_route(rebuild_request(q))}
 //! Oracles on the implementation alone:
-//!   trace-routes      set(t) == set(m)
+//!   trace-routes      t == m as multisets (every matching rule listed exactly once)
 //!   final-priority    fp == gp
 //!   trace-action-last for pairwise distinct ranks of the matched rules: the action of the last
 //!                     TraceAction step equals Action::from_routes_rule (serialised)
@@ -77,6 +79,32 @@ fn raw_request(d: &Value) -> Option<Request> {
     request_of(&raw_cfg, d)
 }
 
+/// ids of the routes of every `Storage` node of the serialised traces
+fn stored_ids(v: &Value, out: &mut Vec<String>) {
+    match v {
+        Value::Array(a) => {
+            for x in a {
+                stored_ids(x, out);
+            }
+        }
+        Value::Object(o) => {
+            if o.get("type").and_then(|t| t.as_str()) == Some("storage") {
+                if let Some(Value::Array(rs)) = o.get("routes") {
+                    for r in rs {
+                        if let Some(id) = r.get("id").and_then(|i| i.as_str()) {
+                            out.push(id.to_string());
+                        }
+                    }
+                }
+            }
+            if let Some(c) = o.get("children") {
+                stored_ids(c, out);
+            }
+        }
+        _ => {}
+    }
+}
+
 fn strip_volatile(v: &mut Value) {
     // rule_traces / rule_ids of an action list every merged rule in merge order; they are part of the comparison.
     let _ = v;
@@ -121,13 +149,17 @@ fn run(case: &Value) -> Obs {
         let m = sorted_ids(&matched);
         let traces = router.trace_request(&raw);
         let trace_routes = Trace::<Rule>::get_routes_from_traces(&traces);
-        let mut t = sorted_ids(&trace_routes);
+        let t = sorted_ids(&trace_routes);
         let t_with_dups = t.clone();
-        t.dedup();
-        let mut mset = m.clone();
-        mset.dedup();
-        if t != mset && fail.is_none() {
-            fail = Some((format!("trace lists {:?}, matching returns {:?}", t, m), "trace-routes"));
+        let mut ts = Vec::new();
+        stored_ids(&serde_json::to_value(&traces).unwrap_or(Value::Null), &mut ts);
+        ts.sort();
+        if t != m && fail.is_none() {
+            let mut tset = t.clone();
+            tset.dedup();
+            let mut mset = m.clone();
+            mset.dedup();
+            fail = Some((format!("trace lists {:?}, matching returns {:?}", t, m), if tset == mset { "trace-routes-repeated" } else { "trace-routes" }));
         }
         let route_trace = serde_json::to_value(router.get_trace(&raw)).unwrap_or(Value::Null);
         let fp = route_trace.get("final_route").and_then(|r| r.get("priority")).cloned().unwrap_or(Value::Null);
@@ -160,7 +192,7 @@ fn run(case: &Value) -> Obs {
             }
         }
         any_match |= !m.is_empty();
-        obs.push(json!({"t": t_with_dups, "m": m, "fp": fp, "gp": gp}));
+        obs.push(json!({"t": t, "ts": ts, "m": m, "fp": fp, "gp": gp}));
     }
     let mut o = Obs::new(Value::Array(obs)).trivial(rules_d.is_empty() || reqs_d.is_empty());
     o.tags.extend(rule_tags(rules_d));
